@@ -162,16 +162,17 @@ def k_graph_synthetic(ctx, n_comp, size, isolated, method, np_seed):
     comps = [order[c * size:(c + 1) * size] for c in range(n_comp)]
     trip = []
     for comp in comps:
-        for a in range(len(comp)):
-            for b in range(a + 1, len(comp)):
-                i, j = comp[a], comp[b]
-                r = rng.random()
-                if r < 0.45:
-                    trip.append((i, j, 1))
-                elif r < 0.9:
-                    trip.append((j, i, 1))
-                else:
-                    trip += [(i, j, 1), (j, i, 1)]
+        # a path through the component (every edge a bridge) plus a few chords; each neighbour pair in one random orientation, some in both
+        pairs = [(comp[a], comp[a + 1]) for a in range(len(comp) - 1)]
+        pairs += [(comp[a], comp[a + 2]) for a in range(0, len(comp) - 2, 5)]
+        for i, j in pairs:
+            r = rng.random()
+            if r < 0.45:
+                trip.append((i, j, 1))
+            elif r < 0.9:
+                trip.append((j, i, 1))
+            else:
+                trip += [(i, j, 1), (j, i, 1)]
     rng.shuffle(trip)
     ctx.count("graph_synthetic_cases")
     if len(trip) > 65536:
@@ -397,10 +398,10 @@ def generate(tier, seed):
         if eng == "kdtree" and i % 2 == 0:
             p["max_returns"] = 1 + (i // 6) % 2
         yield "graph", p, i < 50
-    yield "graph_synthetic", {"n_comp": 120, "size": 36, "isolated": 50, "method": "cc", "np_seed": 15500 + seed}, True
+    yield "graph_synthetic", {"n_comp": 2400, "size": 25, "isolated": 50, "method": "cc", "np_seed": 15500 + seed}, True
     if thorough:
-        yield "graph_synthetic", {"n_comp": 300, "size": 40, "isolated": 200, "method": "cc", "np_seed": 15501 + seed}, True
-        yield "graph_synthetic", {"n_comp": 150, "size": 30, "isolated": 10, "method": "leiden", "np_seed": 15502 + seed}, True
+        yield "graph_synthetic", {"n_comp": 9000, "size": 16, "isolated": 200, "method": "cc", "np_seed": 15501 + seed}, True
+        yield "graph_synthetic", {"n_comp": 3000, "size": 30, "isolated": 10, "method": "leiden", "np_seed": 15502 + seed}, True
     wit = ["CASSF", "CASF", "CAWF", "CASSLF", "CASSF", "CDDDDDF", "CAW", "CDDDDF"]
     # option dictionaries given but empty: SciPy's own defaults apply (single linkage)
     for t in (1, 2):
